@@ -174,11 +174,11 @@ FamBatch ==
       \* zero, one or two special members at any positions
       Lay == { [k |-> k, pt |-> pt, a |-> a, ka |-> ka, b |-> b, kb |-> kb] :
                  k \in Ks, pt \in (IF Quick THEN {2, 3} ELSE {1, 2, 3}), a \in 0..MaxK, b \in 0..MaxK,
-                 ka \in BadKinds \cup DisKinds, kb \in (IF Quick THEN {"xs", "dn"} ELSE BadKinds \cup DisKinds) }
+                 ka \in BadKinds \cup DisKinds, kb \in (IF Quick THEN {"xs", "dn"} ELSE {"xs", "xr", "dn", "dh8", "vn"}) }
       Good(l) == l.a <= l.k /\ l.b <= l.k /\ (l.b = 0 \/ l.a < l.b) /\ (l.a = 0 => (l.b = 0 /\ l.ka = "xs")) /\ (l.b = 0 => l.kb = "xs")
                  /\ (Quick /\ l.pt = 3 => l.b = 0)
       Mem(l, nt) == [x \in 1..l.k |-> Kind(nt[1], nt[2], IF x = l.a THEN l.ka ELSE IF x = l.b THEN l.kb ELSE Pattern(l.pt, x))]
-      Sk == IF Quick THEN {NoSkew, <<0, 1, 0>>, <<0, 0, -1>>, <<1, 0, 0>>} ELSE {s \in {-1, 0, 1} \X {-1, 0, 1} \X {-1, 0, 1} : TRUE}
+      Sk == IF Quick THEN {NoSkew, <<0, 1, 0>>, <<0, 0, -1>>, <<1, 0, 0>>} ELSE {s \in {-1, 0, 1} \X {-1, 0, 1} \X {-1, 0, 1} : s = NoSkew \/ ~(s[1] = s[2] /\ s[2] = s[3])}    \* uniform skews are just other batch sizes
       Plain3(nt, d, a) == [x \in 1..3 |-> Kind(nt[1], nt[2], IF x = a THEN d ELSE "v1")]
   IN  { ScenF(Plain3(nt, d, a), "VerifyOnly", NoSkew, FALSE, <<Kind(nt[1], nt[2], "v1")>>) : nt \in NT, d \in DisKinds \cup BadKinds, a \in 1..3 }
   \cup { ScenF(Mem(l, nt), mode, NoSkew, FALSE, <<Kind(nt[1], nt[2], "v1")>>) : l \in {l \in Lay : Good(l)}, nt \in NT, mode \in {"VerifyOnly", "RecoverAndVerify"} }
